@@ -23,6 +23,7 @@ KINDS = {
     '.c': dict(name=None, cls=['c']),
     '#i': dict(name=None, id='i'),
     'x.c1.c2': dict(name='x', cls=['c1', 'c2']),
+    'x.a.b.c': dict(name='x', cls=['a', 'b', 'c']), '.col.x.wide': dict(name=None, cls=['col', 'x', 'wide']),      # one-letter class names
     'x[a=b]': dict(name='x', attrs=[('a', 'b')]),
     'x#i.c[a=b d]': dict(name='x', id='i', cls=['c'], attrs=[('a', 'b'), ('d', None)]),
     'x{t}': dict(name='x', text=['t']),
